@@ -754,19 +754,27 @@ static void DecodeNorm(Word Index) {
     DecodeAdr(&AdrResult, pOrder);
     if (AdrResult.ErgMode != -1) {
         if (pOrder->Codes[AdrResult.ErgMode] == -1) {
+            ShortInt LongMode = AdrResult.ErgMode;
+
             if (AdrResult.ErgMode == ModZA) {
-                AdrResult.ErgMode = ModA;
+                LongMode = ModA;
             }
             if (AdrResult.ErgMode == ModZIX) {
-                AdrResult.ErgMode = ModIX;
+                LongMode = ModIX;
             }
             if (AdrResult.ErgMode == ModZIY) {
-                AdrResult.ErgMode = ModIY;
+                LongMode = ModIY;
             }
             if (AdrResult.ErgMode == ModInd8) {
-                AdrResult.ErgMode = ModInd16;
+                LongMode = ModInd16;
             }
-            AdrResult.AdrVals[AdrCnt++] = 0;
+
+            /* only a short mode turned into its long form gets a high byte */
+
+            if ((LongMode != AdrResult.ErgMode) && (AdrResult.AdrCnt == 1)) {
+                AdrResult.ErgMode                     = LongMode;
+                AdrResult.AdrVals[AdrResult.AdrCnt++] = 0;
+            }
         }
         if (pOrder->Codes[AdrResult.ErgMode] == -1) {
             WrError(ErrNum_InvAddrMode);
